@@ -176,3 +176,42 @@ func (w *SimWriter) Write(p []byte) (int, error) {
 	}
 	return 0, f.Err
 }
+
+// Writers differ in what they implement besides Write; code under test may
+// take a fast path when it finds io.ByteWriter or io.StringWriter. The fault
+// semantics are those of the embedded SimWriter.
+
+// SimByteWriter is a SimWriter that also implements io.ByteWriter.
+type SimByteWriter struct{ *SimWriter }
+
+func (w SimByteWriter) WriteByte(c byte) error {
+	_, err := w.SimWriter.Write([]byte{c})
+	return err
+}
+
+// SimStringWriter is a SimWriter that also implements io.StringWriter.
+type SimStringWriter struct{ *SimWriter }
+
+func (w SimStringWriter) WriteString(s string) (int, error) { return w.SimWriter.Write([]byte(s)) }
+
+// SimRichWriter implements both.
+type SimRichWriter struct{ *SimWriter }
+
+func (w SimRichWriter) WriteByte(c byte) error {
+	_, err := w.SimWriter.Write([]byte{c})
+	return err
+}
+func (w SimRichWriter) WriteString(s string) (int, error) { return w.SimWriter.Write([]byte(s)) }
+
+// As wraps w in one of the capability variants (0 = plain).
+func (w *SimWriter) As(kind int) io.Writer {
+	switch kind % 4 {
+	case 1:
+		return SimByteWriter{w}
+	case 2:
+		return SimStringWriter{w}
+	case 3:
+		return SimRichWriter{w}
+	}
+	return w
+}
